@@ -59,7 +59,7 @@ let lh_config (mode : string) (rot : string) (naming : string) : config =
   { c_spec = { fbase = bytes_of_string "a"; fdisc = None; fts = false; fsfx = Some (bytes_of_string "log") };
     c_append = false; c_cap = cap;
     c_rot = (if rot = "~" then None else Some ((CSize (n_of_int (int_of_string (String.sub rot 1 (String.length rot - 1)))), nm), KNever));
-    c_utc = false; c_symlink = false; c_bg = false; c_async = (mode.[0] = 'a' || mode.[0] = 'A') }
+    c_utc = false; c_symlink = false; c_bg = false; c_async = (mode.[0] = 'a' || mode.[0] = 'A'); c_start = None }
 
 (* "<out> <mode> <rot> <naming> ; ops" *)
 let run_lh (toks : string list) : string =
